@@ -330,11 +330,28 @@ Fixpoint ends_with_slash (s : str) : bool :=
   | _ :: s' => ends_with_slash s'
   end.
 
-(* FileSystem::get: walk with a stack of nodes ([cur] = names of the stack) *)
+(* `Path::components` silently drops a trailing `/` and `/.`, which still
+   require the file to be a directory (FileSystem::get checks the bytes) *)
+Fixpoint ends_with_slashdot (s : str) : bool :=
+  match s with
+  | [] => false
+  | [a; b] => N.eqb a c_slash && N.eqb b c_dot
+  | _ :: s' => ends_with_slashdot s'
+  end.
+
+Definition needs_dir (s : str) : bool := ends_with_slash s || ends_with_slashdot s.
+
+(* FileSystem::get: walk with a stack of nodes ([cur] = names of the stack).
+   `..` can be resolved only in a directory (ENOTDIR otherwise); a leading `.`
+   is resolved at the root, which is a directory. *)
 Fixpoint walk (t : fs) (cur : list str) (cs : list comp) : option (list str) :=
   match cs with
   | [] => Some cur
-  | CUp :: cs => walk t (removelast cur) cs
+  | CUp :: cs =>
+      match lookup t cur with
+      | Some (KDir _) => walk t (removelast cur) cs
+      | _ => None                             (* ENOTDIR *)
+      end
   | CName n :: cs =>
       match lookup t cur with
       | Some (KDir true) =>
@@ -366,7 +383,7 @@ Definition resolve_rel (cwd path : str) : str :=
        end.
 
 Definition get_path (t : fs) (cwd path : str) : option (list str) :=
-  let r := resolve_rel cwd path in fs_get t (path_comps r) (ends_with_slash r).
+  let r := resolve_rel cwd path in fs_get t (path_comps r) (needs_dir r).
 
 (* fstatat without following the final symbolic link *)
 Definition fs_lstat (t : fs) (cwd path : str) : bool :=
@@ -389,7 +406,7 @@ Fixpoint stat_loop (t : fs) (rounds : nat) (cs : list comp) (trailing : bool) : 
               stat_loop t r
                 (if is_abs target then path_comps target
                  else removelast cs ++ path_comps target)
-                (ends_with_slash target)
+                (needs_dir target || str_eqb target s_dot)
           | _ => true
           end
       end
@@ -399,7 +416,7 @@ Definition symloop_max : nat := 8.
 
 Definition fs_stat (t : fs) (cwd path : str) : bool :=
   let r := resolve_rel cwd path in
-  stat_loop t symloop_max (path_comps r) (ends_with_slash r).
+  stat_loop t symloop_max (path_comps r) (needs_dir r).
 
 (* names of the children of the node [k] *)
 Fixpoint children (t : fs) (k : list str) : list str :=
